@@ -406,7 +406,7 @@ pub fn spec(check: &str, tier: &str) -> Option<CheckSpec> {
         "C17" => {
             let progs = fam::stat_programs(tier);
             let mut js17 = jobs("C17", tier, progs, &cfg);
-            for which in 0..5u64 {
+            for which in 0..6u64 {
                 let program = Program { name: format!("CUSTOM-tls-teardown-{}", which), objs: Objs { atomics: vec![which, 17], ..Default::default() }, threads: vec![vec![]] };
                 js17.push(Job { id: format!("C17-custom-{}", which), check: "C17".into(), tier: tier.into(), program, cfg: cfg.clone(), extra: serde_json::json!({"mode": "custom", "which": which}) });
             }
